@@ -8,13 +8,16 @@ from .. import tree
 from .. import rulesets as R
 from .. import session as S
 from . import queue_disk as D
+from . import status_common as ST
 
 ID = 'C09'
 LEVEL = 'exploration'
 RULE = ('bounded-exhaustive: for every ruleset of a small on-disk family x {skip_brute, all_lower}^2 x mode, pcfg_guesser.main() is run '
         'in-process for EVERY N in 1..total+2 and stdout(N) is compared with the first min(N,total) lines of the unlimited run; every line must be a '
         'member of the reference language; resumed sessions (saved at every guess position of a run that contains a Markov level) are run under every N too; '
-        'non-trivial = N strictly inside a pre-terminal with >= 2 guesses or inside a Markov level')
+        'status layer: the real keypress()/StatusReport body is run after every guess position under every combination of 0/1/2 days, hours, minutes, seconds on the session '
+        'clock (fresh and resumed sessions, status / help / quit requests) and stdout must stay the guess stream; '
+        'non-trivial = N strictly inside a pre-terminal with >= 2 guesses or inside a Markov level, or a status request that printed a report')
 ASSUMPTIONS = ['only valid configurations are quantified over (well-formed ruleset, N >= 1); messages printed to stdout on error paths are out of scope',
                'honeywords mode (unseeded) is checked for line count and language membership only; random_walk additionally for the prefix property']
 
@@ -67,13 +70,14 @@ def shards(tier):
     n = len(specs(tier))
     sh = [('fresh', i, sb, sc, mode) for i in range(n) for sb in (0, 1) for sc in (0, 1) for mode in MODES]
     sh += [('resume', i, k, 8) for i in range(n) for k in range(8)]
+    sh += ST.shards()
     return sh
 
 
 def bounds(tier):
     return {'rulesets': len(specs(tier)), 'flags': 'skip_brute x all_lower', 'modes': MODES,
             'N': 'every N in 1..total+2 (never-ending modes: 1..total+5 against the N_max run)',
-            'resume': 'states saved at every guess position j of the default run; --load under every N'}
+            'resume': 'states saved at every guess position j of the default run; --load under every N', **ST.bounds(tier)}
 
 
 def language(spec, sb, sc):
@@ -218,7 +222,9 @@ def run_resume(shard, tier, acc):
 
 
 def run_shard(shard, tier, acc):
-    if shard[0] == 'fresh':
+    if shard[0] == 'status':
+        ST.run(shard, tier, acc)
+    elif shard[0] == 'fresh':
         run_fresh(shard, tier, acc)
     else:
         run_resume(shard, tier, acc)
@@ -229,6 +235,8 @@ def replay(case):
     acc = Acc()
     # re-run the (small) shard the case came from and look for the same N
     tier = 'thorough'
+    if case.get('layer') == 'status':
+        return ST.replay(case)
     if case['kind'] == 'fresh':
         run_fresh(('fresh', case['spec_index'], case['skip_brute'], case['all_lower'], case['mode']), tier, acc)
     else:
